@@ -123,7 +123,7 @@ def _q(i):
 
 def _exact_scaled(v_e, n_frac):
     """2**f * v exactly."""
-    assert 0 <= n_frac <= 64
+    assert -64 <= n_frac <= 64
     return z3.fpMul(z3.RNE(), z3.fpFPToFP(z3.RNE(), v_e, F128),
                     fpval(2.0 ** n_frac, F128))
 
@@ -1254,5 +1254,14 @@ def units(tier, seed):
                        witnesses=("both-truncated",), **kw))
         us.append(Unit("deprecated fix_to_float " + tag, h_dep_x2f, p, **kw))
         us.append(Unit("deprecated float_to_fix " + tag, h_dep_f2x, p, **kw))
+    # negative n_frac (the least significant bit weighs 2**-n_frac > 1):
+    # accepted by float_to_fp / fp_to_float and the NumPy converters; the
+    # round trip only (the deprecated variants reject it, and the scalar
+    # units' exact-scaling lemma is stated for n_frac >= 0)
+    for (s, n, f) in ((True, 8, -2), (False, 16, -3), (True, 16, -1)):
+        us.append(Unit("round-trip %s%d.%d" % ("S" if s else "U", n, f),
+                       h_roundtrip, dict(signed=s, n_bits=n, n_frac=f,
+                                         numpy=True),
+                       witnesses=("round-trip",), **kw))
     us.append(Unit("numpy converter widths", h_np_widths))
     return us
